@@ -33,6 +33,10 @@ Results, for EVERY forest:
   WELL-FORMED, spaced forest returns the tree report and its total.  No discovery hypothesis;
 * T3c `analyze_of_pytoks_text` - the same for a token list with comment tokens interspersed whose
   code tokens are the rendering of a well-formed forest (through `scan_of_pytree_all`);
+* T3m `analyze_of_pytoks_marked_text` - the same with comments AND suppression markers, without the
+  hypothesis "no function is marked": the result is `pyMarkedReport` (`C01pyfull`, Part 3);
+* `lex_of_pytiling` - T2 for ANY raw stream that tiles the text and has the same non-whitespace
+  tokens; `Ex.docLast_end` - the expected END location when the last token of a body spans lines;
 * T4 `pyTreeOp_sound` - the driver operation `pytree` (`Model/PyTreeOps.lean`): if the two flags
   it reports are true, `_analyze_file` on the returned text and raw stream returns the returned
   report; T4c `pyToksOp_sound` - the same for the operation `pytoks` (files with comments, five
@@ -91,6 +95,15 @@ as in `_analyze_file`.)  The forest need not be well-formed. -/
 theorem lex_of_pytree_text {t : PyProg PTok} (hs : t.Spaced = true) (hw : t.noWs = true) :
     lex (pyTextOf t) (pyRawOf t) false = pyRender t := by
   rw [pyRender_eq]; exact lex_of_pytoks_text hs hw
+
+/-- **T2 does not depend on how the lexer splits the gaps** (as `C01text.lex_of_tiling`): for ANY raw
+stream that tiles the text of the forest and has the same non-whitespace tokens as `pyRawOf t`
+(same offsets, kinds, types, texts), `lex` returns the rendering. -/
+theorem lex_of_pytiling {t : PyProg PTok} (hs : t.Spaced = true) (hw : t.noWs = true)
+    {raw : List RawTok} (hraw : RawOk (pyTextOf t) raw)
+    (hsame : raw.filter (fun r => !r.isWs) = (pyRawOf t).filter (fun r => !r.isWs)) :
+    lex (pyTextOf t) raw false = pyRender t := by
+  rw [lex_eq_nonWs hraw, hsame, ← lex_eq_nonWs (rawOk_pytext t), lex_of_pytree_text hs hw]
 
 /-- the tokens of a well-formed forest are code tokens: no whitespace token -/
 theorem noWs_of_wf {t : PyProg PTok} (hw : t.wf = true) : t.noWs = true := by
@@ -198,6 +211,23 @@ theorem analyze_of_pytoks_text {t : PyProg PTok} (hw : t.wf = true) {l : List PT
       = .ok (pyTreeReport t.located, totalOf (pyTreeReport t.located)) := by
   unfold analyze
   rw [lex_of_pytoks_text hs hws, C01pyfull.scan_of_pytree_all hw hcode hm]
+  rfl
+
+/-- **T3m.  The same with comments AND suppression markers** (no hypothesis `hm`): let `l` be a
+token list that begins a file - comment tokens anywhere, any of them a marker -, spaced and without
+whitespace tokens, whose layout, comment tokens removed, is the rendering of a well-formed forest
+`t`.  Then `_analyze_file` on the TEXT of `l` returns `pyMarkedReport t …`: the tree report of the
+forest in which the `def` nodes named on a line with a marker comment are dissolved
+(`C01pyfull.scan_of_pytree_marked`), and its total.  C04 and C17 for Python at text level follow:
+the result depends on the comments only through the marked-ness of the name lines
+(`C01pyfull.comments_in_place_invisible_py`, `toggle_marker_py`, `reported_functions_py`). -/
+theorem analyze_of_pytoks_marked_text {t : PyProg PTok} (hw : t.wf = true) {l : List PTok}
+    (hs : pySpacedAfter [10] l = true) (hws : l.all (fun x => !x.bare.isWhitespace) = true)
+    (hcode : filterTokens false (place (0, 0) l) = pyRender t) :
+    analyze Gen.python (pyTextOfToks l) (pyRawOfToks l)
+      = .ok (pyMarkedReport t (place (0, 0) l), totalOf (pyMarkedReport t (place (0, 0) l))) := by
+  unfold analyze
+  rw [lex_of_pytoks_text hs hws, C01pyfull.scan_of_pytree_marked hw hcode]
   rfl
 
 /-! ## T4: the driver operation -/
@@ -348,6 +378,32 @@ example : small.wf = true ∧ small.Spaced = true ∧
   refine ⟨by decide +kernel, by decide +kernel, by decide +kernel, ?_⟩
   exact (pytext_is_textFrom (by decide +kernel) (by decide +kernel)).1
 
+/-- a function whose LAST token spans two lines (a docstring as the only statement):
+```
+1  def f():
+2    """a
+3  b"""
+```
+-/
+def docLast : PyProg PTok :=
+  .defn [] (pt 1 [100, 101, 102] 1 0) (pt 2 [102] 0 3) [pt 3 [40] 0 0, pt 3 [41] 0 0]
+      [pt 3 [58] 0 0]
+      (.line [pt 7 [34, 34, 34, 97, 10, 98, 34, 34, 34] 1 2] .nil) .nil
+
+/-- **the expected END when the last token of the body spans lines**: the tree report ends at
+line 3, column 5 - just past `b"""` on the LAST line of the token - and that is the (line, column) of
+the text offset just past the token (`C01text.end_location_is_text_end`: offset 20 = the end of the
+text before the final newline); `_analyze_file` returns it -/
+theorem docLast_end : docLast.wf = true ∧ docLast.Spaced = true ∧
+    pyTextOf docLast = cp "def f():\n  \"\"\"a\nb\"\"\"\n" ∧
+    pyTreeReport docLast.located = [⟨[102], 1, 1, 3, 5, 2⟩] ∧
+    (lineOf (pyTextOf docLast) 20, colOf (pyTextOf docLast) 20) = (3, 5) ∧
+    analyze Gen.python (pyTextOf docLast) (pyRawOf docLast) = .ok ([⟨[102], 1, 1, 3, 5, 2⟩], 2) := by
+  refine ⟨by decide +kernel, by decide +kernel, by decide +kernel, by decide +kernel,
+    by decide +kernel, ?_⟩
+  rw [analyze_of_pytree_text (by decide +kernel) (by decide +kernel)]
+  decide +kernel
+
 /-- T3c on an example with comments: a comment line at column 1 INSIDE the function, a trailing
 comment and a final comment line
 ```
@@ -377,6 +433,27 @@ example : pyTextOfToks withComments = cp "def f():\n# c\n  return 1  # t\n# e\n"
     (by decide +kernel) (by decide +kernel) (by decide +kernel)]
   decide +kernel
 
+/-- T3m on an example: the file of `withComments` with the marker `# nocl` behind `def f():`
+```
+1  def f():  # nocl
+2  # c
+3    return 1  # t
+```
+The code tokens are the rendering of `small'`; the only function is suppressed: `_analyze_file`
+returns no function, total 0. -/
+def withMarker : List PTok :=
+  [pt 1 [100, 101, 102] 1 0, pt 2 [102] 0 3, pt 3 [40] 0 0, pt 3 [41] 0 0, pt 3 [58] 0 0,
+   pt 5 [35, 32, 110, 111, 99, 108] 0 2,
+   pt 5 [35, 32, 99] 1 0, pt 1 [114, 101, 116, 117, 114, 110] 1 2, pt 0 [49] 0 6,
+   pt 5 [35, 32, 116] 0 2]
+
+example : pyTextOfToks withMarker = cp "def f():  # nocl\n# c\n  return 1  # t\n" ∧
+    analyze Gen.python (pyTextOfToks withMarker) (pyRawOfToks withMarker) = .ok ([], 0) := by
+  refine ⟨by decide +kernel, ?_⟩
+  rw [analyze_of_pytoks_marked_text (t := small') (by decide +kernel) (by decide +kernel)
+    (by decide +kernel) (by decide +kernel)]
+  decide +kernel
+
 /-- **Well-formedness is needed in T3** (the forest `C01pyfull.Ex.skewTree`: a statement after a
 nested `def` that is indented deeper than that `def`): the forest is spaced, T2 applies, but
 `_analyze_file` on its text reports `g` on lines 2-4 and `f` with 1 line (so does the real code
@@ -389,7 +466,7 @@ theorem wf_needed :
     pyTreeReport skewTree.located = [⟨[102], 1, 1, 4, 8, 2⟩, ⟨[103], 2, 5, 3, 17, 2⟩] := by
   refine ⟨by decide +kernel, by decide +kernel, by decide +kernel, ?_, by decide +kernel⟩
   unfold analyze
-  rw [lex_of_pytree_text (by decide +kernel) (by decide +kernel), same_indentation_needed.2.1]
+  rw [lex_of_pytree_text (by decide +kernel) (by decide +kernel), same_indentation_witness.2.2.1]
   rfl
 
 /-- T4c on the example: all five flags of the `pytoks` operation are true -/
